@@ -1,5 +1,20 @@
 (* C15 correspondence: cases as printed by harness/c15. *)
-From Verif Require Export Lib.Base Model.C15_Sync.
+From Verif Require Export Lib.Base Lib.JobTab Model.C15_Sync Model.C15_Hist.
+
+(* The job list of the scheduler as the harness prints it: maximal runs of jobs of one kind for
+   consecutive slots whose times advance by a constant step, (kind, first slot, count, time of the
+   first, step).  Lossless: [expand_runs] gives back the list (kind, slot, time) in the order
+   recorded (by slot, then kind); the harness checks the round trip before printing. *)
+Definition jobrun := (N * N * N * Z * Z)%type.
+
+Fixpoint expand_run (k s : N) (n : nat) (t dt : Z) : list job :=
+  match n with
+  | O => []
+  | S n' => (k, s, t) :: expand_run k (s + 1) n' (t + dt)%Z dt
+  end.
+
+Definition expand_runs (l : list jobrun) : list job :=
+  flat_map (fun r => let '(k, s, n, t, dt) := r in expand_run k s (N.to_nat n) t dt) l.
 
 Record case := {
   c_id : N;
@@ -8,8 +23,15 @@ Record case := {
   c_fires : list fire_in;             (* slots whose jobs are then fired in turn, with the scripted environment of each *)
   c_out : sched_out;                  (* OBSERVED: duties request, job table, subscription *)
   c_fouts : list fire_out;            (* OBSERVED: one per fired slot *)
-  c_agg : option (agg_in * option (list contrib))   (* a direct Aggregate call: input, OBSERVED submission *)
+  c_agg : option (agg_in * option (list contrib));  (* a direct Aggregate call: input, OBSERVED submission *)
+  c_hist : list hop;                  (* a history on one controller and one scheduler: calls, refreshes, fired slots *)
+  c_hruns : list (list jobrun * option fire_out)   (* OBSERVED after each operation: the scheduler's job list
+                                         (run-length encoded by the harness, see [expand_runs]); what a fired slot did *)
 }.
+
+(* OBSERVED after each operation of the history: the scheduler's job list, and what a fired slot did *)
+Definition c_hobs (c : case) : list (list job * option fire_out) :=
+  map (fun x => (expand_runs (fst x), snd x)) (c_hruns c).
 
 (* ---------------------------------------------------------------------------------------------- *)
 (* equality of observables *)
@@ -55,13 +77,19 @@ Definition fire_out_eqb (a b : fire_out) : bool :=
   && option_eqb Z.eqb (o_agg_job a) (o_agg_job b)
   && option_eqb (list_eqb contrib_eqb) (o_contribs a) (o_contribs b).
 
-Definition agree (c : case) : bool :=
+Definition agree_base (c : case) : bool :=
   sched_out_eqb (schedule (c_par c) (c_in c)) (c_out c)
   && list_eqb fire_out_eqb (map (fire_scheduled (c_par c) (c_in c)) (c_fires c)) (c_fouts c)
   && match c_agg c with
      | None => true
      | Some (a, o) => option_eqb (list_eqb contrib_eqb) (aggregate a) o
      end.
+
+Definition hobs_eqb (a b : list job * option fire_out) : bool :=
+  list_eqb job_eqb (fst a) (fst b) && option_eqb fire_out_eqb (snd a) (snd b).
+
+Definition agree (c : case) : bool :=
+  agree_base c && list_eqb hobs_eqb (hrun (c_par c) [] (c_hist c)) (c_hobs c).
 
 (* ---------------------------------------------------------------------------------------------- *)
 (* The property evaluated on the OBSERVED outputs alone.  Nothing below calls the model's
@@ -227,10 +255,67 @@ Definition spec_agg_ok (a : agg_in) (o : option (list contrib)) : bool :=
           else subsetb contrib_eqb want got)
   end.
 
-Definition P_b (c : case) : bool :=
+Definition P_b_base (c : case) : bool :=
   spec_schedule_ok (c_par c) (c_in c) (c_out c)
   && fires_ok (c_par c) (c_in c) (c_fires c) (c_fouts c)
   && match c_agg c with None => true | Some (a, o) => spec_agg_ok a o end.
+
+(* ---------------------------------------------------------------------------------------------- *)
+(* Histories.  A validator of a sync committee owes a message in every slot of the window of its
+   period, whatever else the controller does in the meantime: a later call for another period, or
+   the refresh of ANOTHER period's duties after a reorganisation, must leave the slot's job in
+   place, and a refresh of the slot's own period must replace it by a job for the refreshed duties.
+   The specification keeps, per slot, the call whose duty is owed (exact arithmetic; the table
+   operations are those of the scheduler, Lib/JobTab.v): a call owes its window's slots unless the
+   slot is already owed; a refresh of the period of [epoch] releases exactly the slots from the one
+   before the period's first slot to the one before its last and then owes the refreshed call's
+   window; a slot that fired is released. *)
+Definition spec_sched_slots (p : params) (i : sched_in) : list N :=
+  match sched_ready i with
+  | Some _ => spec_slots p (si_epoch i) (si_cur i) (si_notcur i)
+  | None => []
+  end.
+
+Definition spec_period_window (p : params) (epoch s : N) : bool :=
+  let period := epoch / epp p in
+  let F := N.max (period * epp p) (fork p) * spe p in
+  let E := N.max ((period + 1) * epp p) (fork p) * spe p in
+  (F - 1 <=? s) && (s + 2 <=? E).
+
+Definition spec_hstep (p : params) (t : jtab) (o : hop) : jtab :=
+  match o with
+  | HSched i => tab_add t (spec_sched_slots p i) i
+  | HRefresh e i => tab_add (tab_del t (spec_period_window p e)) (spec_sched_slots p i) i
+  | HFire f => match tab_get t (f_slot f) with
+               | Some _ => tab_del t (N.eqb (f_slot f))
+               | None => t
+               end
+  end.
+
+Fixpoint hist_ok (p : params) (t : jtab) (ops : list hop) (obs : list (list job * option fire_out)) : bool :=
+  match ops, obs with
+  | [], [] => true
+  | o :: ops', (jobs, fo) :: obs' =>
+      let t' := spec_hstep p t o in
+      (* the scheduler holds one prepare job, 1.5 slots early, for every slot owed, and nothing else *)
+      set_eqb job_eqb (map (fun e => (JPrepare, fst e, (Z.of_N (fst e) * slot_ns p - slot_ns p * 6 / 4)%Z)) t') jobs
+      && nodupb job_eqb jobs
+      && match o, fo with
+         | HFire f, Some out =>
+             match tab_get t (f_slot f) with
+             | Some i => spec_fire_ok p i f out          (* the slot is owed under call i: its members message *)
+             | None => match opt_list (o_submitted out) with [] => true | _ => false end
+             end
+         | HFire _, None => false
+         | _, None => true
+         | _, Some _ => false
+         end
+      && hist_ok p t' ops' obs'
+  | _, _ => false
+  end.
+
+Definition P_b (c : case) : bool :=
+  P_b_base c && hist_ok (c_par c) [] (c_hist c) (c_hobs c).
 
 Definition mismatches (cs : list case) : list N := failing_ids c_id agree cs.
 Definition violations (cs : list case) : list N := failing_ids c_id P_b cs.
